@@ -150,6 +150,7 @@ PublishIdle ==
 (* _ServerInternalRunAdapter.write_to_event_stream(terminal event): _retry_store_write *)
 PublishTerminal(k) ==
   /\ proc = "up" /\ gen \in loops /\ active /\ ~tw.on /\ eng.ended = "none" /\ eng.phase = "cmds"
+  /\ eng.cause # "idlecheck"                     \* an idle check publishes nothing but WorkflowIdleEvent
   /\ eng' = [eng EXCEPT !.ended = k, !.work = FALSE]
   /\ tw' = [on |-> TRUE, status |-> StatusOf(k), fails |-> 0]
   /\ UNCHANGED <<now, proc, row, nlog, logEnded, loops, gen, active, pactive, timers, start, sfails, faults, inbox, sendpc>>
@@ -167,10 +168,12 @@ TermWriteFail ==
 
 (* the control loop task ends (after its terminal event, or because it was aborted) *)
 LoopExit(g) ==
-  /\ proc = "up" /\ g \in loops /\ ~tw.on
+  /\ proc = "up" /\ g \in loops
   /\ (g = gen => (eng.ended # "none" \/ ~active))
+  /\ (tw.on => (g = gen /\ ~active))         \* a loop ends inside its terminal status write only when it is aborted
   /\ loops' = loops \ {g}
-  /\ UNCHANGED <<now, proc, row, nlog, logEnded, gen, active, pactive, timers, eng, tw, start, sfails, faults, inbox, sendpc>>
+  /\ tw' = IF g = gen /\ ~active THEN NoTw ELSE tw      \* ... and the write (its retry, its back-off sleep) dies with the task
+  /\ UNCHANGED <<now, proc, row, nlog, logEnded, gen, active, pactive, timers, eng, start, sfails, faults, inbox, sendpc>>
 
 ----------------------------------------------------------------------------
 (* IdleReleaseDecorator._release_idle_handler, when a _deferred_release task wakes *)
